@@ -67,4 +67,34 @@ def prodSU2 (cs : A → K × K) (half : A → A) (reg : List Nat) (l : List ((Na
   l.foldl (fun W p => leftMix (blkSU2 (cs (half p.2.2.1)).1 (cs (half p.2.2.1)).2 (eOf cs (half p.2.1)) (eOf cs (half p.2.2.2)))
     (rg reg p.1.1) (rg reg p.1.2) W) W
 
+/-! the compact meshes: their parameter dictionaries describe the physical mesh directly, the defining product is a
+sequence of phase shifters `P(j, φ)` and sMZIs `M(n, σ, δ)` (arXiv:2104.07561, eqs. 1, 2) -/
+
+inductive CItem (A : Type)
+  | phase (φ : A) (j : Nat)
+  | smzi (σ δ : A) (n : Nat)
+  deriving Repr, DecidableEq
+
+/-- the defining product of `rectangular_compact` (input phases on even modes, per layer the edge phase and the sMZIs of
+that parity, output phases), first item applied first; positions, not targets -/
+def rectCompactSpec (m : Nat) (phiIns : Nat → A) (phiEdges : Nat → Nat → A) (deltas sigmas : Nat → Nat → A)
+    (phiOuts : List (Nat × A)) : List (CItem A) :=
+  (range2 0 (m - 1)).map (fun j => .phase (phiIns j) j) ++
+  ((List.range m).flatMap fun layer =>
+    (if (layer + m + 1) % 2 = 0 then [CItem.phase (phiEdges (m - 1) layer) (m - 1)] else []) ++
+    (range2 (layer % 2) (m - 1)).map fun mode => .smzi (sigmas mode layer) (deltas mode layer) mode) ++
+  phiOuts.map fun jp => .phase jp.2 jp.1
+
+/-- the defining product of `triangular_compact` -/
+def triCompactSpec (m : Nat) (phiIns : Nat → A) (deltas sigmas : Nat → Nat → A) (zetas : Nat → A) : List (CItem A) :=
+  ((List.range (m - 1)).flatMap fun j =>
+    CItem.phase (phiIns j) (j + 1) :: (List.range (j + 1)).map fun k => .smzi (sigmas (j - k) k) (deltas (j - k) k) (j - k)) ++
+  (List.range m).map fun j => .phase (zetas j) j
+
+/-- the product of `P` and `M` blocks (C17's `blkM`), embedded at the targets -/
+def runSpec (cs : A → K × K) (reg : List Nat) (l : List (CItem A)) (W : CMat K) : CMat K :=
+  l.foldl (fun W it => match it with
+    | .phase φ j => leftPhase (eOf cs φ) (rg reg j) W
+    | .smzi σ δ n => leftMix (blkM (cs δ).1 (cs δ).2 (eOf cs σ)) (rg reg n) (rg reg (n + 1)) W) W
+
 end SFV.Decompose
